@@ -51,7 +51,7 @@ class Scn:
                 "per_module": self.jitter_ns > 0, "endfail": ["a"] if self.endfail == "EndFailA" else []}
 
 
-def run_scn(v, wd, prop, scn, mc=True):
+def run_scn(v, wd, prop, scn, mc=True, heap=False):
     consts = scn.constants()
     if mc:
         r = tlc("MC_Net", f"CONSTANTS {consts}\nSPECIFICATION Spec\nINVARIANTS {INVS}\nPROPERTIES TimeMonotone\nCHECK_DEADLOCK FALSE\n", wd)
@@ -87,6 +87,23 @@ def run_scn(v, wd, prop, scn, mc=True):
                         f"scripts {json.dumps(m.get('behaviour', {}).get('scripts'))[:400]}", m, {"suite": "net", "field": f, "family": scn.name})
     if int(tot.get("mismatch_count", 0)):
         v.cov["replay_mismatches"] = v.cov.get("replay_mismatches", 0) + int(tot["mismatch_count"])
+    if heap:
+        # the same scenarios with the BinaryHeap event set (des built without the `cqueue` feature)
+        vlib.build_harness_heap()
+        outs = vlib.run_vh_parallel([["net", "replay", s, "--cfg", cfgp] for s in shards], binary=vlib.VHH)
+        toth = vlib.collect(v, outs, "net", f"running scripted simulations on the BinaryHeap backend [{scn.name}]")
+        v.cov["traces_validated_against_impl"] += int(toth.get("replays", 0))
+        v.cov["evaluations"] += int(toth.get("checks", 0))
+        v.cov["gen_runs"][-1]["heap_backend_replays"] = int(toth.get("replays", 0))
+        seen = set()
+        for m in toth.get("mismatches", []):
+            f = m.get("field")
+            if f in seen:
+                continue
+            seen.add(f)
+            m["backend"] = "heap"
+            v.add_violation(f"[{scn.name}, BinaryHeap backend] {f}: expected {json.dumps(m.get('expected'))[:200]} got {json.dumps(m.get('got'))[:200]}",
+                            m, {"suite": "net", "field": f, "family": scn.name, "backend": "heap"})
 
 
 def random_scripts(rng, mods, stack, n_inv=10):
@@ -193,7 +210,9 @@ def run_random(v, wd, prop, scn, count, tag):
         json.dump(hc, fh)
     shards, total = vlib.shard_lines(beh, wd, vlib.NCPU, prefix=f"sh_rand_{tag}_")
     log(f"[{prop}] Run_Net[{tag}]: {total} random mixed scenarios interpreted by TLC in {g.wall:.1f}s")
-    outs = vlib.run_vh_parallel([["net", "replay", s_, "--cfg", cfgp] for s_ in shards if os.path.getsize(s_) > 0])
+    cmds = [["net", "replay", s_, "--cfg", cfgp] for s_ in shards if os.path.getsize(s_) > 0]
+    vlib.build_harness_heap()
+    outs = vlib.run_vh_parallel(cmds) + vlib.run_vh_parallel(cmds, binary=vlib.VHH)     # both event-set backends
     tot = vlib.collect(v, outs, "net", f"running random mixed scenarios [{tag}]")
     v.cov["traces_validated_against_impl"] += int(tot.get("replays", 0))
     v.cov["evaluations"] += int(tot.get("checks", 0))
@@ -354,7 +373,10 @@ def _replay(prop, path):
     cfgp = os.path.join(wd, "cfg.json")
     with open(cfgp, "w") as fh:
         json.dump(d.get("cfg"), fh)
-    out = vlib.run_vh_parallel([["net", "replay", p, "--cfg", cfgp]])[0]
+    heap = d.get("backend") == "heap"
+    if heap:
+        vlib.build_harness_heap()
+    out = vlib.run_vh_parallel([["net", "replay", p, "--cfg", cfgp]], binary=vlib.VHH if heap else None)[0]
     for m in out.get("mismatches", []):
         m.pop("behaviour", None)
     log(json.dumps(out)[:4000])
